@@ -4,7 +4,6 @@ Fields with a value that is a unique function of (global cell index, component),
 cell-aligned subregions on anisotropic 2-4-d meshes are rotated by the real Region/Mesh/Field.rotate90 and compared with an
 own integer oracle: exact quarter-turn matrix Q on coordinates and mapped vector components, explicit index permutation
 (no use of numpy.rot90).  Bounded: <= 5 cells per axis, k in -5..5, seeded geometry."""
-import copy
 import itertools
 import numpy as np
 import discretisedfield as df
@@ -409,7 +408,7 @@ def check_rotate(pr, ag):
             d = diff(snap(obj), snap(cp), sc, float(np.abs(s0["array"]).max()))
             sig = None
             if d and set(d) <= {"units", "sub.units"} and k % 2 == 1 and tuple(region_units(obj)) == tuple(r0["units"]):
-                sig = "inplace-odd-k-units-not-swapped"
+                sig = "inplace-rotate90-odd-k-units-not-swapped"
             ag.req(not d, "C12.inplace_eq_copy", "state after the in-place form differs from the copy form's result (%s)" % what, sig=sig, k=k, a=a, b=b, differs=d)
 
 
